@@ -97,3 +97,9 @@ for k in ('rt_DS_DEGL_DS_DC', 'rt_C_TRUESDELL_SPATIAL_MODULI', 'rt_SPATIAL_MODUL
           'rt_C_TAU_JAUMANN_ABAQUS', 'rt_DSIG_DF_DSIG_DDF', 'rt_DTAU_DF_DTAU_DDF', 'rt_DS_DEGL_SPATIAL_MODULI',
           'rt_C_TAU_JAUMANN_DTAU_DF', 'rt_SPATIAL_MODULI_DTAU_DF'):
     SPEC[k] = ident
+
+# the converters from DT_DELOG (double only): chain-rule relations between the results of the real converters
+Z4 = specnum.M4(lambda i, j, k, l: 0.0)
+for k in ('DTDELOG_DS_DC_minus_half_DS_DEGL', 'DTDELOG_SPATIAL_minus_pushforward_DS_DEGL', 'DTDELOG_TRUESDELL_minus_SPATIAL_over_J'):
+    SPEC[k] = lambda N, K, F0, F1, s: Z4
+SPEC['DTDELOG_DS_DEGL_at_identity'] = lambda N, K: K
